@@ -16,7 +16,8 @@ import dictdoc as D
 THEOREMS = ['C02_utf8_roundtrip', 'C02_utf8_total', 'C02_decimal_text_roundtrip', 'C02_leaf_writer', 'C02_leaf_reader',
             'C02_leaf_reference_reader', 'C02_integers_any_magnitude', 'C02_decimals_any_magnitude',
             'C02_serializer_writes_conventions', 'C02_reader_reads_conventions', 'C02_request_fidelity',
-            'C02_response_fidelity_partial', 'C02_call_fidelity', 'C02_response_positional_without_wrappers_refuted',
+            'C02_response_fidelity_partial', 'C02_call_fidelity', 'C02_rpc_request_fidelity',
+            'C02_rpc_response_fidelity', 'C02_response_positional_without_wrappers_refuted',
             'C02_subclass_without_wrappers_refuted', 'C02_source_tables']
 
 FUEL = 40
@@ -828,7 +829,7 @@ def run(check):
         'the Decimal reader); the reference decoder accepts str and bin for text, as Spyne writes bin',
         'theorems exclude, and the oracle reports as known findings: complex_as=list with ignore_wrappers=False '
         '(responses lack the wrapper keys), subclass instances under polymorphic=True with ignore_wrappers=True; '
-        'MessagePackRpc is tied by correspondence and oracle only (no call-level theorem), msgid is not echoed',
+        'MessagePackRpc: theorems for ignore_wrappers=True (its positional parameter convention); the response carries msgid 0, not the request\'s',
         'a user function is entered exactly once per request in the model by construction (SCall); exactly-once at the '
         'pipeline level is observed by the oracle (one recorded call), not proved here',
     ]
